@@ -46,16 +46,26 @@ MANIFEST = dict(
          "den*metronome, find_lcm(<100) grouping, num*new_den/den slot fill with int(), line assembly) tied to the code on every "
          "run by in-Coq correspondence (exact on fractions.Fraction; float stream on the exact float values), plus the independent "
          "reference interpreter bms_denote evaluated on the bytes the implementation wrote, compared with the in-memory chart. "
-         "Proved for all inputs: find_lcm_spec (length kept, every input divides its output, every output is the input itself or "
-         "< threshold, for every list of positive integers and every threshold), slot arithmetic (den | L -> num*(L/den) is an "
-         "integer in [0,L) denoting the same measure fraction), every assembled note line is '#'+3 digits+channel+':'+an even number "
-         "of characters, distinct slots give exactly one object per row (no merge), for the whole slot table every row's line length is a "
-         "positive multiple of its denominator so every object sits at a slot denoting exactly its own measure fraction and two "
-         "written objects share (measure, channel, position) only if their rows did; 3-digit measure and base-36 id codecs inverse; layout injectivity by vm_compute on the regenerated tables. "
-         "bms_write_denotes is refuted by a machine-checked witness (':.3f' tempo rounding) = KNOWN finding; the whole-file "
-         "statement under the guard is checked per run, not proved.",
-    note="Trusted: Coq kernel+VM, generator/serialiser, gen_tables, shift_jis and str(float) oracles. Whole-file refinement "
-         "(denote(write c) = c) is NOT proved; component theorems are. Float-stream rounding is measured, not proved.",
+         "Proved, whole file: C05_bms_write_denotes -- for every layout satisfying the layout obligations and every chart of the "
+         "decidable domain write_dom (wf_wchart at tolerance 0: 4/4 on measure lines, first tempo point at 0, measure < 1000, < 1295 "
+         "tempo points, no two objects of a lane in one grid slot, nothing inside a hold of its lane, ids base-36 other than 00/LNOBJ; "
+         "tempo list in time order and, in reduced fractions, the millisecond form of a script of C10's on-grid domain; tempos that "
+         "':.3f' prints without loss; one-word misc keys), whatever str(float) prints for #BPM: the write succeeds, bms_denote accepts "
+         "the lines and they denote the chart -- every hit, hold head, LN tail and tempo object exactly once at its own position "
+         "(multisets), column exactly, time within 1/192 beat of the in-memory time and EQUAL to it on the snap grid (C10_ms_roundtrip "
+         "/ C10_position_roundtrip), sample registered under the written id, tempo changes at the in-memory times and tempos, "
+         "title/artist/level/LNOBJ/WAV table/misc retained. C05_bms_write_read composes it with C04_bms_read_text: BMSMap.read of the "
+         "written text is the chart (rows as multisets, same time bounds) whenever the written text lies in the reader's text-level "
+         "domain (text_domb, read_guards: decidable on the written lines). Parts, each for all inputs: C05_write_note_lines_objs "
+         "(the note section holds exactly the rows, nothing merged or dropped), C05_lane_pairs (any listing of a lane's hits and "
+         "head/tail pairs is read back to them), find_lcm_spec, slot arithmetic, line shape, no-merge, codecs; layout injectivity by "
+         "vm_compute on the regenerated tables. Without the ':.3f' guard the statement is refuted by a machine-checked witness = KNOWN "
+         "finding bpm-3f-rounding.",
+    note="Trusted: Coq kernel+VM, generator/serialiser, gen_tables, shift_jis and str(float) oracles. Not proved: that write_dom implies "
+         "the reader's text-level domain for the written text (false in general: titles with surrounding blanks, lower-case sample ids; "
+         "it is a decidable hypothesis of C05_bms_write_read, shown to hold on a concrete chart); charts whose tempo rows are not in "
+         "time order (checked per run by correspondence + oracle only); float-stream rounding (measured, not proved). About 2/3 of the "
+         "generated quick cases lie in write_dom.",
     technique="Coq executable model + reference interpreter + vm_compute correspondence against the implementation",
     design="4/C05")
 
